@@ -114,7 +114,8 @@ fn c03_kernel_every_reliable_reader() {
     kani::cover!(got && rel[0] && rel[1] && rel[2], "nothing to acknowledge (sn <= 0)");
 }
 
-// @check props=C03 tier=thorough
+// PARKED (not run, not claimed): two proxies + one ACKNACK: the proxy is selected through a symbolic pointer into the proxy list; 2 proxies x 2 ACKNACKs exhausted 10 GB, this reduced shape was not measured
+// @parked props=C03 tier=thorough
 // @desc soundness kernel as c03_kernel_one_proxy with 2 matched reader proxies and one arbitrary ACKNACK delivery (the proxy is then selected through a symbolic pointer)
 // @bounds 2 reader proxies; one ACKNACK delivery; base in [1, i64::MAX], count full i32, sn full i64
 // @assume ACKNACK readerSNState.base >= 1 and an empty bitmap
@@ -206,7 +207,8 @@ fn departure(pending: bool) {
     core::mem::forget(p);
 }
 
-// @check props=C03 tier=thorough known=KF-C03-1
+// PARKED (not run, not claimed): measured: CBMC out of memory at 10 GB (exit 6) after 260-290 s; the defect it encodes is listed in the family report as a reading finding
+// @parked props=C03 tier=thorough known=KF-C03-1
 // @desc KNOWN FINDING: a wait_for_acknowledgments waiter parked behind a matched reliable reader is NOT completed when that reader's participant is removed (remove_discovered_participant: lease expiry, SPDP disposal, ignore_participant): the RTPS reader proxy is deleted, so is_change_acknowledged(last) becomes true, but wait_for_acknowledgments_notification is drained only by the ACKNACK handler (communication_methods.rs) and no ACKNACK from the departed reader will ever arrive: the caller hangs until its own timeout
 // @bounds one writer, one matched reliable reader, one parked waiter; last in [1, i64::MAX]
 // @assume trigger: a waiter is parked at the time the reader's participant is removed
@@ -222,7 +224,8 @@ fn c03_departure_participant_pending__known() {
     departure(true);
 }
 
-// @check props=C03 tier=thorough
+// PARKED (not run, not claimed): measured: CBMC out of memory at 10 GB (exit 6) after 260-290 s; the defect it encodes is listed in the family report as a reading finding
+// @parked props=C03 tier=thorough
 // @desc sibling of KF-C03-1 with the trigger negated: the reader's participant is removed (remove_discovered_participant) while NO waiter is parked; afterwards the reader is unmatched, its RTPS proxy is gone and is_change_acknowledged(last) holds, i.e. (c03_wait_registration) a wait_for_acknowledgments issued after the departure is answered at once
 // @bounds one writer, one matched reliable reader; last in [1, i64::MAX]
 // @assume negated trigger: no waiter is parked at the time of the participant removal
